@@ -49,11 +49,11 @@ Section Engine.
     exists tg', Inv tg' (hp_of (runE s cs)) /\ KE tg' (runE s cs) /\ Ext tg (hp_of s) tg' (hp_of (runE s cs)).
   Proof.
     induction cs as [|c cs IH]; cbn; intros tg s HI HK Hl.
-    - exists tg. repeat split; auto using Ext_refl.
+    - exists tg. split; [assumption|]. split; [assumption | apply Ext_refl].
     - apply andb_true_iff in Hl. destruct Hl as [L1 L2].
       destruct (step_inv tg s c HI HK L1) as (tg1 & I1 & K1 & E1).
       destruct (IH tg1 _ I1 K1 L2) as (tg2 & I2 & K2 & E2).
-      exists tg2. repeat split; auto. eapply Ext_trans; eauto.
+      exists tg2. split; [assumption|]. split; [assumption | eapply Ext_trans; eauto].
   Qed.
 
   Lemma legalhE_app : forall cs1 cs2 s, legalhE s (cs1 ++ cs2) = true ->
@@ -96,7 +96,7 @@ Section Basic.
   Lemma basic_runE : forall hs ps, runE _ _ bstep ps hs = runh cf ps hs.
   Proof. induction hs; cbn; intros; auto. Qed.
   Lemma basic_legalhE : forall hs ps, legalhE _ _ bstep legal ps hs = legalh cf ps hs.
-  Proof. induction hs; cbn; intros; auto. rewrite IHhs. reflexivity. Qed.
+  Proof. induction hs; cbn; intros; [reflexivity|]. rewrite IHhs. reflexivity. Qed.
 
   (* the instance: (E1) is pstep_inv, (E2) is acc_stable *)
   Theorem basic_engine_stable : forall hs1 hs2, legalh cf pinit (hs1 ++ hs2) = true ->
